@@ -353,6 +353,11 @@ def c09(tier, seed, only=None):
     t0 = time.time()
     mons = ["vx.monitors.pause.PauseTransparent"]
     jobs = _ctrl_jobs(tier, mons, dict(pause=1, resume=1, horizon=60), families=("F2", "F4", "F5", "F6"))
+    # two pause/resume pairs (a pause can land right after a resume, before anything is dispatched)
+    for s in gen.f2_all(tier):
+        if s.name in ("F2/seq2", "F2/seq3", "F2/decide", "F2/fanin-m2-jall-SS-l1", "F2/handler-noop-par") or (
+                tier != "quick" and not gen.is_big(s)):
+            jobs.append(job(s, dict(pause=2, resume=2, horizon=60, dev=5 if tier == "quick" else 6), mons))
     jobs = _filter(jobs, only)
     results = runner.run_jobs(jobs, seed=seed)
     rule = (
